@@ -1,6 +1,7 @@
 import Mimium.Model.Core
 import Mimium.Proofs.CoreRenameV
 import Mimium.Proofs.CstGrammarTrivia
+import Mimium.Proofs.LowerFront
 /-!
 # C16 — meaning is invariant under renaming, layout and agreeing annotations
 
@@ -12,7 +13,10 @@ behaves like the reference semantics here is decided by the correspondence: the 
 program and on 8 transformed renderings of it.
 PARTIAL: the type checker/mirgen handling of names is exercised, not modelled.  The PARSER is modelled (`Model/CstGrammar.lean`, literal port
 of `cst_parser.rs`, tied by C13): `C16_parse_ignores_trivia_kinds` proves that white space and comments reach the syntax tree only
-through the line-break oracle (and one diagnostic through token adjacency).
+through the line-break oracle (and one diagnostic through token adjacency).  LOWERING is modelled too (`Model/Lower.lean`, port of
+`lower.rs` tied by the exact AST + span correspondence of this check): `C16_lower_ignores_trivia`, `C16_front_end_layout_invariant`
+(text → tokens → CST → AST: the AST, spans as terms over the syntax tokens included, does not depend on trivia except through the
+line-break oracle), `C16_lower_parens_transparent` (redundant parentheses leave no trace in the AST, not even in the spans).
 -/
 namespace Mimium.Core
 
@@ -115,5 +119,105 @@ example :
     ((parseTokens k1 [1, 1, 1, 1, 1, 0]).b.root.map (·.shape.code) ≠ (parseTokens k2 [1, 1, 1, 1, 1, 0]).b.root.map (·.shape.code)) ∧
     ((parseTokens k2 [1, 1, 1, 1, 1, 0]).b.root.map (·.shape.code) = (parseTokens k3 [1, 1, 1, 1, 1, 1, 0]).b.root.map (·.shape.code)) := by
   decide +kernel
+
+end Mimium.Props.C16
+
+/-! ## Lowering (`Model/Lower.lean`, port of `lower.rs`) -/
+
+namespace Mimium.Props.C16
+open Mimium.Gen (Kind SK)
+open Mimium.Preparse Mimium.Grammar Mimium.Lower
+open Mimium.Cst (Green)
+
+/-- The port is a port of what is in `/repo` now: every function of `lower.rs` and `ast/statement.rs` has the body hash of the
+reviewed list `tools/lower_pins.json`.  ANY edit of a lowering function breaks this `decide`. -/
+theorem C16_lower_functions_pinned : Mimium.Gen.lowerFns = Mimium.Gen.lowerFnsPinned := by decide
+
+/-- LOWERING IGNORES TRIVIA AND OFFSETS.  The lowered `Program` — every statement, expression, pattern, type, AND every span as a
+term over the leaves (`Sp`: "span of the `j`-th leaf", `merge`, `0..0`) — is determined by the SHAPE of the green tree and by the
+(relabelled) kind and the text of its token leaves, in order: two trees of the same shape (e.g. the trees of two layouts of one
+program, `C16_parse_ignores_trivia_kinds`) whose leaves show the same kinds and texts lower to THE SAME program, whatever the raw
+token indices, byte offsets, white space and comments are.  Offsets enter only when the span terms are evaluated
+(`Sp.eval (leafOffsets …)`), so the programs of the two texts are equal modulo spans, and their spans are the same hulls of the
+same syntax tokens. -/
+theorem C16_lower_ignores_trivia (kinds kinds' : Array Kind) (texts texts' : Array Sym) (g g' : Green)
+    (hshape : g.shape = g'.shape)
+    (hleaves : g.leaves.map (tokInfo kinds texts) = g'.leaves.map (tokInfo kinds' texts')) :
+    lowerGreen kinds texts g = lowerGreen kinds' texts' g' :=
+  lowerGreen_congr kinds kinds' texts texts' g g' hshape hleaves
+
+/-- LAYOUT CLAUSE OF C16 FOR THE WHOLE FRONT END (tokens → CST → AST; ported parser + ported lowering, every fuel).  Two token
+lists — kinds `ks`/`ks'`, lengths, texts — that have the same number of syntax tokens with the same kinds (`view`) and the same
+texts (`tview`), the same answer of `has_trailing_linebreak()` at every cursor position (`nl`) and the same raw adjacency of
+consecutive syntax tokens (`adjacent`; read by one diagnostic only) yield the same `Program`: the same AST, and the same span
+terms over the syntax tokens.  So white space, comments and line breaks can change the meaning of a program only through the
+line-break oracle at the positions the grammar asks it. -/
+theorem C16_front_end_layout_invariant (ks ks' : List Kind) (widths widths' : List Nat) (texts texts' : Array Sym)
+    (hw : widths.length = ks.length) (hw' : widths'.length = ks'.length) (fuel : Nat)
+    (hsize : (mkEnv ks widths (preparse ks)).idx.size = (mkEnv ks' widths' (preparse ks')).idx.size)
+    (hview : ∀ i, view (mkEnv ks widths (preparse ks)) ks.toArray i = view (mkEnv ks' widths' (preparse ks')) ks'.toArray i)
+    (htext : ∀ i, tview (mkEnv ks widths (preparse ks)) texts i = tview (mkEnv ks' widths' (preparse ks')) texts' i)
+    (hnl : ∀ i, (mkEnv ks widths (preparse ks)).nl i = (mkEnv ks' widths' (preparse ks')).nl i)
+    (hadj : ∀ i, adjacent (mkEnv ks widths (preparse ks)) i = adjacent (mkEnv ks' widths' (preparse ks')) i) :
+    lowerParsed ks widths texts fuel = lowerParsed ks' widths' texts' fuel :=
+  lowerParsed_layout ks ks' widths widths' texts texts' hw hw' fuel hsize hview hnl hadj htext
+
+/-- `frontEnd` (what `drv_c16` runs and the correspondence compares with `parse_program`) is `lowerParsed` on the tokens of the text -/
+theorem C16_front_end_is_lowerParsed (C : Lexer.Classes) (T : Lexer.Tables) (s : List Char) :
+    (frontEnd C T s).prog =
+      lowerParsed ((Lexer.tokenize C T s).map Lexer.Token.kind) ((Lexer.tokenize C T s).map Lexer.Token.len)
+        ((Lexer.splitProj none (Lexer.lex C T s)).map Lexer.Lexeme.text ++ [[]]).toArray
+        (fuelBound (preparse ((Lexer.tokenize C T s).map Lexer.Token.kind)).tokenIndices.length) := by
+  simp only [frontEnd, lowerParsed, parseTokens]
+  split <;> simp_all
+
+/-- REDUNDANT PARENTHESES.  `lower.rs` does not build `Expr::Paren`: `lower_expr(ParenExpr)` is `lower_expr_sequence` of the
+expression children.  For a `ParenExpr` node with exactly one expression child `e` (any children that are not expressions — the
+two parenthesis tokens — around it) the lowered expression IS the lowered `e`, span included: the parentheses leave no trace in the
+AST, not even in the span of the expression (they do in the span of the enclosing statement, `node_span`).  Parentheses therefore
+reach the meaning only through the parse tree (grouping, and `a⏎(b)` vs `a (b)`). -/
+theorem C16_lower_parens_transparent (cs : List A) (e : A) (k : SK) (hk : e.kind = some k) (hcs : childExprs cs = [e]) :
+    (mkA (some .ParenExpr) none cs).attrs.expr = e.attrs.expr := by
+  simp [mkA, A.attrs, lowerExpr, hcs, lowerExprSequence_singleton e k hk]
+
+/-! ### Non-vacuity (kernel evaluation of the whole ported front end on program texts) -/
+
+private def asciiClasses : Lexer.Classes := ⟨fun c => c.isAlpha, fun c => c.isAlphanum || c == '_'⟩
+private def fe (s : String) : FrontEnd := frontEnd asciiClasses Lexer.genTables s.toList
+private def offs (f : FrontEnd) : Nat → Nat × Nat := leafOffsets f.toks.toArray f.leaves.toArray
+
+/-- `fn f(x){ x+1 }`: one function, parameter `x` of unknown type at its token, body `x + 1` -/
+private def isFnPlus (f : FrontEnd) : Bool :=
+  match f.prog with
+  | [(.fnDef false name [(x, .unknown psp, none)] lsp none (.binOp (.var x' xsp) .sum osp (.lit (.float one) _) bsp), ssp)] =>
+    name == "f".toList && x == "x".toList && x' == x && one == "1".toList &&
+    psp.eval (offs f) == (5, 6) && lsp.eval (offs f) == (4, 7) && xsp.eval (offs f) == (9, 10) && osp.eval (offs f) == (10, 11) &&
+    bsp.eval (offs f) == (9, 12) && ssp.eval (offs f) == (0, 14)
+  | _ => false
+
+example : isFnPlus (fe "fn f(x){ x+1 }") = true ∧ (fe "fn f(x){ x+1 }").parse.errs = [] := by decide +kernel
+
+/-- `f(x)+1` in two layouts: the same AST with the same span TERMS (operator = leaf 4, call = `merge (leaf 0) (hull of leaves 0–3)`),
+different byte offsets -/
+private def isCallPlus (f : FrontEnd) (opSpan whole : Nat × Nat) : Bool :=
+  match f.prog with
+  | [(.global (.single (.binOp (.apply (.var fn _) [.var x (.tok 2)] csp) .sum (.tok 4) (.lit (.float one) (.tok 5)) bsp)), _)] =>
+    fn == "f".toList && x == "x".toList && one == "1".toList &&
+    (Sp.tok 4).eval (offs f) == opSpan && bsp.eval (offs f) == whole && bsp == .merge csp (.tok 5)
+  | _ => false
+
+example : isCallPlus (fe "f(x)+1") (4, 5) (0, 6) = true ∧ isCallPlus (fe "f( x ) /*c*/ + 1") (13, 14) (0, 16) = true := by decide +kernel
+
+/-- error recovery: `let ( = ) )` still lowers (a `let` of the empty tuple pattern to `Expr::Error`), with four parser errors -/
+example :
+    (match (fe "let ( = ) )").prog with
+     | [(.global (.let_ (.tuple []) (.unknown _) (.error .zero)), _)] => true
+     | _ => false) = true ∧ (fe "let ( = ) )").parse.errs.length = 4 := by decide +kernel
+
+/-- `(a)` lowers to the variable `a` with the span of `a` alone (1..2); the statement spans 0..3 -/
+example :
+    (match (fe "(a)").prog with
+     | [(.global (.single (.var a sp)), ssp)] => a == "a".toList && sp.eval (offs (fe "(a)")) == (1, 2) && ssp.eval (offs (fe "(a)")) == (0, 3)
+     | _ => false) = true := by decide +kernel
 
 end Mimium.Props.C16
